@@ -344,7 +344,8 @@ def judge_probes(prop, probes, results, violating):
     rows = []
     for p in probes:
         r = results[p["name"]]
-        entry_bad = p["entry"] in violating
+        bad_entries = [e for e in [p["entry"]] + list(p.get("also", [])) if e in violating]
+        entry_bad = bool(bad_entries)
         if p["role"] == "attack":
             predict = "accept" if entry_bad else "reject"
         elif p["role"] == "misuse":
@@ -359,7 +360,13 @@ def judge_probes(prop, probes, results, violating):
             # a violating entry need not make *every* attack shape succeed; the accepted ones demonstrate it
             rows[-1]["predicted"] = "accept (some attack)"
             if r["accepted"]:
-                by_entry.setdefault(p["entry"], []).append((p, r))
+                for e in bad_entries:
+                    # programs that were also run and misbehaved come first (they are the replay)
+                    lst = by_entry.setdefault(e, [])
+                    if _unsafe_run(r):
+                        lst.insert(0, (p, r))
+                    else:
+                        lst.append((p, r))
             continue
         if predict != observed:
             if p["role"] in ("attack", "misuse") and r["accepted"] and unsafe:
